@@ -8,13 +8,16 @@
    Error classes: 2 gcs.ErrPTooBig (SetP > 32, and SetM > MaxUint32 returns the same error value),
    5 "p value is not set", 6 "m value is not set"; Panic 5 = write to a nil map
    (AddEntry on a builder whose Preallocate never ran). *)
-From BU Require Import Lib.Bytes Lib.PolyMod Lib.Sha256 Gen.Xgcs_builder Gcs.SipHash Gcs.Gcs.
+From BU Require Import Lib.Bytes Lib.PolyMod Lib.Sha256 Gen.Xgcs Gen.Xgcs_builder Gcs.SipHash Gcs.Gcs.
 
 Definition default_p : N := Z.to_N c_DefaultP.
 Definition default_m : N := Z.to_N c_DefaultM.
 Definition setp_max : N := lit lits_GCSBuilder_SetP 0.      (* p > 32 *)
 Definition max_uint32 : N := 4294967295.                    (* math.MaxUint32 *)
-Definition key_size : nat := 16.                            (* gcs.KeySize *)
+Definition key_size : nat := Z.to_nat c_KeySize.            (* gcs.KeySize, from gcs/gcs.go *)
+Definition build_p_unset : N := lit lits_GCSBuilder_Build 0.   (* b.p == 0 *)
+Definition build_m_unset : N := lit lits_GCSBuilder_Build 1.   (* b.m == 0 *)
+Definition coinbase_index : N := lit lits_buildBasicFilterWithKey 0.   (* if i == 0 { continue } *)
 
 Record builder := mkBuilder {
   b_p : N; b_m : N; b_key : list N;
@@ -108,8 +111,8 @@ Section WithDeps.
     match b_err b with
     | Some e => Err e
     | None =>
-        if b_p b =? 0 then Err 5
-        else if b_m b =? 0 then Err 6
+        if b_p b =? build_p_unset then Err 5
+        else if b_m b =? build_m_unset then Err 6
         else build hash sort (b_p b) (b_m b) (b_key b) (entries_of b)
     end.
 
@@ -118,13 +121,11 @@ Section WithDeps.
     match ins with
     | [] => Ok b
     | o :: t =>
-        match i with
-        | O => add_inputs i b t                                     (* coinbase: continue *)
-        | S _ =>
-            let s := ser_outpoint o in
-            if is_nonempty s then (do b' <- add_entry b s ;; add_inputs i b' t)
-            else add_inputs i b t
-        end
+        if N.of_nat i =? coinbase_index then add_inputs i b t        (* coinbase: continue *)
+        else
+          let s := ser_outpoint o in
+          if is_nonempty s then (do b' <- add_entry b s ;; add_inputs i b' t)
+          else add_inputs i b t
     end.
 
   Fixpoint add_outputs (b : builder) (outs : list (list N)) : res builder :=
